@@ -144,6 +144,11 @@ func specPacked6Char(b []byte, k int) uint8 {
 //@ ensures [C20.entity-system] result == (i <= 0x5f)
 //@ ensures [C20.entity-split] i <= 0x7f ==> result != i.IsDeviceRelative()
 
+//@ func EntityInstance.String
+//@ props C20
+//@ at fmt.Sprintf#1 assert [C20.instance-shown-system] i <= 0x5f
+//@ at fmt.Sprintf#2 assert [C20.instance-shown-device] i >= 0x60
+
 //@ func EntityInstance.IsDeviceRelative
 //@ props C20
 //@ assigns nothing
